@@ -36,15 +36,6 @@ Definition ring_unclosed (l : nat) (s : st) (p : nat) : list (Z * ring) :=
   | None => unclosed s ++ [(key_of l, mkRing p (order_of (bond_symbol s)) (length (bonds s)))]
   end.
 
-Lemma py_int_two a b : a < 10 -> b < 10 ->
-  py_int [digit_char a; digit_char b] = Some (Z.of_nat (10 * a + b)).
-Proof.
-  intros Ha Hb. change [digit_char a; digit_char b] with (map digit_char [a; b]).
-  rewrite py_int_digits; [|discriminate|].
-  - unfold digits_value. cbn [fold_left]. repeat f_equal; lia.
-  - cbn [forallb]. unfold digit_ok. apply Nat.ltb_lt in Ha, Hb. rewrite Ha, Hb. reflexivity.
-Qed.
-
 Lemma run_label l pct s p rest :
   skip s = 0 -> atoms s <> [] -> prev s = Some p -> l < 100 -> ring_guard s = false ->
   exists s', run s (spell_label l pct) rest = Next s' /\
